@@ -55,7 +55,9 @@ ASSUMPTIONS = [
 
 WAYS = ["path-str", "path-Path", "path-DirEntry", "path-fspath-object", "file-URL",
         "text-stream", "binary-file", "BytesIO", "loads-str", "loads-bytes",
-        "text-stream-after-readline", "binary-file-after-readline"]
+        "text-stream-after-readline", "binary-file-after-readline",
+        # streams that cannot be rewound (what a program gets on its standard input)
+        "text-pipe", "binary-pipe"]
 HEADER = "/* header record that the caller reads off first */\n"
 
 
@@ -215,6 +217,30 @@ def load_cases(draw, maxrun):
                 _data=data)
 
 
+def load_from_pipe(data, text, lf):
+    """pvl.load() of the read end of an OS pipe that a thread fills with *data*."""
+    import threading
+    r, w = os.pipe()
+
+    def feed():
+        try:
+            with os.fdopen(w, "wb") as out:
+                out.write(data)
+        except OSError:
+            pass                   # the reader gave up early
+
+    th = threading.Thread(target=feed, daemon=True)
+    th.start()
+    try:
+        if text:
+            with os.fdopen(r, "r", encoding="utf-8", newline="") as f:
+                return pvl.load(f, lexer_fn=lf)
+        with os.fdopen(r, "rb") as f:
+            return pvl.load(f, lexer_fn=lf)
+    finally:
+        th.join(30)
+
+
 def load_all_ways(label, data):
     """None or (signature, detail)."""
     d = workdir()
@@ -276,6 +302,11 @@ def load_all_ways(label, data):
                             m = pvl.load(f, lexer_fn=lf)
                 elif way == "BytesIO":
                     m = pvl.load(io.BytesIO(data), lexer_fn=lf)
+                elif way in ("text-pipe", "binary-pipe"):
+                    if way == "text-pipe" and whole is None:
+                        continue   # a text stream that cannot be rewound cannot
+                        #            give back what it failed to decode
+                    m = load_from_pipe(data, way == "text-pipe", lf)
                 elif way == "loads-str":
                     if whole is None:
                         continue
